@@ -5,7 +5,7 @@
    a future's result is what its task returned. *)
 From Coq Require Import ZArith List Bool Permutation Lia.
 Import ListNotations.
-From TD Require Import Model.C12_Chunk Model.C12_Sched Proofs.C12_ChunkP Proofs.C12_SchedP Proofs.C12_AssignP.
+From TD Require Import Model.C12_Chunk Model.C12_Sched Proofs.C12_ChunkP Proofs.C12_SchedP Proofs.C12_AssignP Proofs.C12_InPlaceP.
 Open Scope nat_scope.
 
 (* ================================================================= the partition *)
@@ -134,6 +134,17 @@ Theorem C12_mt_eq_st : forall fn o d con self others out pi,
 Proof. exact mt_eq_st_all_complete. Qed.
 Print Assumptions C12_mt_eq_st.
 
+(* in-place apply (inplace=True): the state left behind is the single-threaded one as well — every leaf of self keeps its
+   IDENTITY (the tensors are written into with copy_, never rebound) and the structure is unchanged, for every completion
+   order; [erase] forgets the contents and keeps keys, nesting and leaf identities.  (A thread-pool setter that rebinds
+   result._tensordict[key] in place — seeded change C12-2 — makes the model's leaves take the identity 0 of the fresh tensors.) *)
+Theorem C12_mt_inplace_keeps_identities : forall fn o d self others out pi f',
+  o_inplace o = true -> leafy fn -> uniq_f self ->
+  (forall id, id < ntasks false self -> In id pi) ->
+  mt_apply fn o d false self others out pi = ORet (Some f') -> erase_f f' = erase_f self.
+Proof. exact mt_inplace_keeps_identities. Qed.
+Print Assumptions C12_mt_inplace_keeps_identities.
+
 (* ================================================================= multithreaded writers *)
 (* memmap_ / memmap / memmap_like: every completion order of the writer tasks leaves the same value under every key *)
 Theorem C12_writers_order_free : forall ops1 ops2 d0,
@@ -181,19 +192,25 @@ Proof. split; [reflexivity|]. split; [reflexivity|]. cbn. repeat split; auto wit
 From Coq Require Import String.
 Open Scope string_scope.
 Example C12_ex_threads :
-  let self := FCons "a" (Leaf 1) (FCons "n" (Node (FCons "c" (Leaf 2) (FCons "d" (Leaf 3) FNil))) (FCons "b" (Leaf 4) FNil)) in
+  let self := FCons "a" (Leaf 1 1) (FCons "n" (Node (FCons "c" (Leaf 2 2) (FCons "d" (Leaf 3 3) FNil))) (FCons "b" (Leaf 4 4) FNil)) in
+  let oi := {| o_named := false; o_nested_keys := false; o_inplace := true; o_fe := Some false |} in
   let o := {| o_named := false; o_nested_keys := false; o_inplace := false; o_fe := Some false |} in
   ntasks false self = 4
   /\ (forall id, id < 4 -> In id [3; 1; 0; 2])
   /\ mt_apply inc_fn o NoDefault false self [] None [3; 1; 0; 2] = st_apply inc_fn o NoDefault false self [] None
   /\ mt_apply inc_fn o Default false self [FCons "n" (Node FNil) FNil] (Some self) [3; 1; 0; 2]
-     = ORet (Some (FCons "a" (Leaf 2) (FCons "n" (Node (FCons "c" (Leaf 3) (FCons "d" (Leaf 4) FNil))) (FCons "b" (Leaf 5) FNil))))
+     = ORet (Some (FCons "a" (Leaf 0 2) (FCons "n" (Node (FCons "c" (Leaf 0 3) (FCons "d" (Leaf 0 4) FNil))) (FCons "b" (Leaf 0 5) FNil))))
   /\ st_apply inc_fn o NoDefault false self [] None
-     = ORet (Some (FCons "a" (Leaf 2) (FCons "n" (Node (FCons "c" (Leaf 3) (FCons "d" (Leaf 4) FNil))) (FCons "b" (Leaf 5) FNil)))).
+     = ORet (Some (FCons "a" (Leaf 0 2) (FCons "n" (Node (FCons "c" (Leaf 0 3) (FCons "d" (Leaf 0 4) FNil))) (FCons "b" (Leaf 0 5) FNil))))
+  (* out of place the result holds the fresh tensors (identity 0); in place the leaves of self keep theirs *)
+  /\ mt_apply inc_fn oi NoDefault false self [] None [3; 1; 0; 2]
+     = ORet (Some (FCons "a" (Leaf 1 2) (FCons "n" (Node (FCons "c" (Leaf 2 3) (FCons "d" (Leaf 3 4) FNil))) (FCons "b" (Leaf 4 5) FNil))))
+  /\ leafy inc_fn /\ uniq_f self.
 Proof.
   cbn zeta. split; [reflexivity|]. split.
   - intros id H. do 4 (destruct id as [|id]; [cbn; tauto|]). lia.
-  - repeat split; vm_compute; reflexivity.
+  - repeat split; try (vm_compute; reflexivity); try (cbn; intuition congruence).
+    intros key i v ov. right. eexists _, _. reflexivity.
 Qed.
 
 Example C12_ex_consolidate :
